@@ -236,7 +236,9 @@ func (g *gen) scalar(d int) string {
 				e := "spy('" + g.spyID() + "', " + pick(g.r, []string{"s1", "n1", "'k1'", "1"}) + ")"
 				return pick(g.r, []string{
 					e + " ~ 'x'", "'x' ~ " + e, "-" + e, "not " + e, "(" + e + ")", "[" + e + "]|first", "{'k': " + e + "}|json_encode",
-					"l1[spy('" + g.spyID() + "', 0)]", "m1[spy('" + g.spyID() + "', 'k1')]", e + " == 'x' ? 'y' : 'n'", e + " in l1 ? 1 : 0",
+					"l1[spy('" + g.spyID() + "', 0)]", "m1[spy('" + g.spyID() + "', 'k1')]",
+					"l1[spy('" + g.spyID() + "', 0)] is defined ? 'd' : 'u'", "m1[spy('" + g.spyID() + "', 'k1')] is not defined ? 'u' : 'd'", "m1['k1'|spyf('" + g.spyID() + "')] is defined ? 'd' : 'u'",
+					"-" + e + " < 0 ? 1 : 0", "cycle(['a', 'b'], " + e + ")", "min(" + e + ", 2)", "{(" + e + "): 1}|keys|first", e + " == 'x' ? 'y' : 'n'", e + " in l1 ? 1 : 0",
 					"'a' in [" + e + "] ? 1 : 0", "s1 starts with " + e + " ? 1 : 0", "(" + e + " and true) ? 1 : 0", "(true and " + e + ") ? 1 : 0",
 					"(false or " + e + ") ? 1 : 0", "max(" + e + ", 1)", "range(1, spy('" + g.spyID() + "', 2))|join", e + " is defined ? 'd' : 'u'",
 					e + " is empty ? 'e' : 'f'", "(" + e + " > 0) ? 1 : 0", e + "|length > 0 ? 1 : 0", "s1|default(" + e + ")", "(n1 > 100 ? 'no' : " + e + ")",
